@@ -72,7 +72,7 @@ def gen_random_graph(rng):
                 v = rng.randrange(0, u + 1)
             else:
                 v = rng.randrange(0, n)
-            lab = rng.choice(["a", "b", 0.5, 1, 0.25])
+            lab = rng.choice(["a", "b", 0.5, 1, 0.25, "", 0, 0.0, "0"])
             row.append((lab, v))
         tl.append(row)
     if style == "diamond" and n >= 4:
@@ -176,6 +176,23 @@ def _decide(tl, finals, idx, cls, literal=True):
         if isinstance(e, (KeyboardInterrupt, SystemExit)):
             raise
         raised = type(e).__name__
+    if raised is None and cls == "RND" and idx % 3 == 0 and n >= 2:
+        # the same list object searched again after an in-place edit that keeps the number of states and transitions
+        import random as _r
+        r2 = _r.Random(idx)
+        rows = [i for i, row in enumerate(tl) if row]
+        try:
+            for _ in range(2):
+                if rows:
+                    i = r2.choice(rows)
+                    j = r2.randrange(len(tl[i]))
+                    tl[i][j] = (tl[i][j][0], r2.randrange(n))
+                rd.reverse_dfs(tl, finals)
+                rd.reverse_transition_list(tl)
+        except BaseException as e:      # noqa
+            if isinstance(e, (KeyboardInterrupt, SystemExit)):
+                raise
+            raised = type(e).__name__
     ev = MON.drain("rev")
     f = _features(tl, finals) if n <= 5000 else {"selfloop": False, "parallel": False, "join": True, "unreachable_part": False, "reaching": n}
     h = hashlib.sha1(repr(([[v for _, v in r] for r in tl] if n <= 200 else (cls, idx, n), finals)).encode()).hexdigest()[:16]
